@@ -282,17 +282,32 @@ func checkC16(c *Ctx) {
 	c.Rule = "one evaluation = one simulated test-mode run registering a population of N UEs; at every InitialUEMessage the reference AMF checks that the SUPI is new, is initial IMSI + index with the same number of digits and PLMN, that the RAN-UE-NGAP-ID is new, that exactly one ciphering and one integrity algorithm are advertised, and RES*/MAC verify under the configured K and OP/OPc; distinct = distinct (N, IMSI shape) signature; non-trivial = N >= 2"
 	c.Assume = append(c.Assume, assumptionsWS...)
 	pops := []int{1, 2, 3, 10, 100, 300}
-	reps := 12
+	reps := 120
 	if c.Tier == "thorough" {
 		pops = []int{1, 2, 3, 10, 100, 1000, 9999, 10000}
-		reps = 40
+		reps = 2000
 	}
 	var jobs []Job
 	root := kernel.New(c.Seed).Sub("c16")
+	// systematic part: every carry position of the MSIN, both MNC lengths, populations that count across it
+	for msin := 2; msin <= 10; msin++ {
+		for pos := 1; pos < msin; pos++ {
+			for _, n := range []int{3, 12} {
+				prof := fmt.Sprintf("c16-carry-%d-%d", msin, pos)
+				forceCarry[prof] = struct{ msin, pos int }{msin, pos}
+				o := GenOpts{Profile: prof, Mode: "test", MinReg: n, MaxReg: n, Latency: "zero", ExplicitUEs: 3}
+				s := Gen(root.Uint64(), o)
+				jobs = append(jobs, Job{S: s, Rig: "ws", Judge: "ws-c16", Tag: fmt.Sprintf("c16/carry msin=%d pos=%d N=%d", msin, pos, n)})
+			}
+		}
+	}
 	for _, n := range pops {
 		k := reps
+		if n >= 100 {
+			k = reps / 10
+		}
 		if n >= 1000 {
-			k = reps / 8
+			k = reps / 100
 		}
 		if n >= 9999 {
 			k = 3
@@ -308,7 +323,10 @@ func checkC16(c *Ctx) {
 	c.Batch(jobs, func(j Job, r *Run, fs []Finding) {
 		cfg := j.S.Config
 		if cfg.NReg >= 2 {
-			sh[fmt.Sprintf("%d/%d/%d/%v", cfg.NReg, len(cfg.IMSI), len(cfg.MNC), strings.HasPrefix(cfg.IMSI[3+len(cfg.MNC):], "0"))] = true
+			sh[fmt.Sprintf("%d/%d/%d/%v/%s", cfg.NReg, len(cfg.IMSI), len(cfg.MNC), strings.HasPrefix(cfg.IMSI[3+len(cfg.MNC):], "0"), carryShape(cfg.IMSI, cfg.NReg))] = true
+			if carryShape(cfg.IMSI, cfg.NReg) != "none" {
+				c.Probes["population-counts-across-a-power-of-ten"]++
+			}
 		}
 		c.Probes["ues-registered"] += cfg.NReg
 		if cfg.NReg >= 9999 {
@@ -316,6 +334,36 @@ func checkC16(c *Ctx) {
 		}
 	})
 	c.sigs = sh
+}
+
+// carryShape tells at which digit position (from the right) counting n subscribers upwards carries.
+func carryShape(imsi string, n int) string {
+	last, ok := coreSupi(imsi, n-1)
+	if !ok {
+		return "overflow"
+	}
+	pos := 0
+	for i := 0; i < len(imsi); i++ {
+		if imsi[i] != last[i] {
+			pos = len(imsi) - i
+			break
+		}
+	}
+	if pos <= 1 {
+		return "none"
+	}
+	return fmt.Sprint("carry-into-digit-", pos)
+}
+
+func coreSupi(imsi string, idx int) (string, bool) {
+	d := []byte(imsi)
+	carry := idx
+	for i := len(d) - 1; i >= 0 && carry > 0; i-- {
+		v := int(d[i]-'0') + carry
+		d[i] = byte('0' + v%10)
+		carry = v / 10
+	}
+	return string(d), carry == 0
 }
 
 // ---------- C18 ----------
